@@ -74,7 +74,7 @@ def build_driver(ctx):
 def make_ws(ctx):
     shutil.copytree(os.path.join(VERIF, "ws"), ctx.ws)
     with open(os.path.join(ctx.ws, "go.mod"), "w") as f:
-        f.write("module verifws\n\ngo 1.19\n\nrequire github.com/goghcrow/go-co v0.0.0\n\nreplace github.com/goghcrow/go-co => %s\n" % REPO)
+        f.write("module verifws\n\ngo 1.20\n\nrequire github.com/goghcrow/go-co v0.0.0\n\nreplace github.com/goghcrow/go-co => %s\n" % REPO)
     shutil.copy(os.path.join(REPO, "go.sum"), os.path.join(ctx.ws, "go.sum"))
     # harness packages that are not used by this check must still build (go vet is not run), so
     # nothing else to do here
